@@ -90,6 +90,87 @@ def natom(e, v):
     return a, pol
 
 
+def prep(e):
+    """membership tests become emptiness tests before set-level rewriting"""
+    if not isinstance(e, tuple) or not e:
+        return e
+    if e[0] == "has":
+        return ("un", "Not", ("isempty", king_as_set(("and", prep(e[1]), ("bbof", prep(e[2]))))))
+    return tuple(prep(x) if isinstance(x, tuple) else x for x in e)
+
+
+def king_as_set(e):
+    """bb(king(S, c)) denotes the same set as colors(c) & pieces(King) once each side has exactly one king"""
+    if not isinstance(e, tuple) or not e:
+        return e
+    if e[0] == "bbof" and e[1][0] == "king":
+        return ("and", ("get", "colors", e[1][1], e[1][2]), ("get", "pieces", e[1][1], ("enum", PIECE, "King")))
+    return tuple(king_as_set(x) if isinstance(x, tuple) else x for x in e)
+
+
+def merge_empties(conj):
+    """a conjunction of `X_i is empty` is `union X_i is empty`: merge them into one canonical atom"""
+    pos = []
+    rest = []
+    for a, pol in conj:
+        if isinstance(a, tuple) and a and a[0] == "isempty" and pol is True:
+            pos.append(a[1])
+        else:
+            rest.append((a, pol))
+    if pos:
+        u = None
+        for x in pos:
+            x = x if not (isinstance(x, tuple) and x and x[0] == "bool") else movegen_bool(x)
+            u = x if u is None else ("or", u, x)
+        rest.append((("isempty", setalg.canon(u)), True))
+    return sorted(rest, key=repr)
+
+
+def movegen_bool(c):
+    from .movegen import bool_to_expr
+    return bool_to_expr(c)
+
+
+def closure_acceptance(f, L, clos, S, store=None):
+    """acceptance DNF of a `|x| cond` closure used with Iterator::all over S (param := elem(S));
+    captured variables are replaced by the caller's values"""
+    cb = f.bodies.get(clos[1]) if clos[0] == "closure" else None
+    if cb is None:
+        return None
+    ps = sym.SymExec(f, cb).run()
+    pname = cb.local_name(2)
+    out = []
+    ops = sym.Ops(f)
+    upvals = []
+    for u in clos[2]:
+        v = u
+        if u[0] == "ptr" and store is not None:
+            base = store.get(u[1])
+            v = ops.project(base, u[2]) if base is not None else u
+        upvals.append(norm_each(L.lift(v), f.adts))
+
+    def sub(e):
+        if e == ("param", pname):
+            return ("elem", S)
+        # *_1.k  /  **_1.k : the k-th captured variable
+        if isinstance(e, tuple) and e and e[0] == "deref" and e[1][0] == "field" and e[1][1] == ("obj", "_1") and e[1][2].isdigit() and int(e[1][2]) < len(upvals):
+            return upvals[int(e[1][2])]
+        if isinstance(e, tuple) and e and e[0] == "field" and e[1] == ("obj", "_1") and e[2].isdigit() and int(e[2]) < len(upvals):
+            return upvals[int(e[2])]
+        if isinstance(e, tuple):
+            return tuple(sub(x) if isinstance(x, tuple) else x for x in e)
+        return e
+    # upvars: the closure's captured references resolve through field projections of _1; keep them lifted as they are
+    for p in ps:
+        if p.end != "return" or p.ret == sym.FALSE:
+            continue
+        lst = [natom(king_as_set(prep(sub(norm_each(L.lift(c[0]), f.adts)))), c[1]) for c in p.conds]
+        if p.ret != sym.TRUE:
+            lst.append(natom(king_as_set(prep(sub(norm_each(L.lift(p.ret), f.adts)))), 1))
+        out.append(lst)
+    return out
+
+
 def acceptance(f, L, name, noinline=None):
     """-> (straight DNF, {loop set canon: iteration DNF}, residual returns) of a validator"""
     b = f.need(name)
@@ -103,15 +184,30 @@ def acceptance(f, L, name, noinline=None):
             continue
         if p.end == "return":
             lst = []
-            for e, v in conds:
+            items = list(conds)
+            if p.ret != sym.TRUE:
+                items.append((norm_each(L.lift(p.ret), f.adts), 1))
+            for e, v in items:
                 if e[0] == "discr" and e[1][0] == "next":
                     continue
                 if sym.contains(e, lambda x: x[0] == "hv"):
                     continue
-                lst.append(natom(e, v))
-            if p.ret != sym.TRUE:
-                r = norm_each(L.lift(p.ret), f.adts)
-                lst.append(natom(r, 1))
+                # `iter.all(|x| cond)` taken on its true edge is a loop over the iterated set
+                if e[0] == "call" and e[1].endswith("Iterator::all") and v == 1:
+                    itv = None
+                    a0 = e[2][0]
+                    if a0[0] == "ptr":
+                        itv = p.store.get(a0[1])
+                    elif a0[0] in ("iter", "iter*"):
+                        itv = a0
+                    if itv is not None and itv[0] in ("iter", "iter*"):
+                        S = norm_each(L.lift(itv[1]), f.adts)
+                        dnf = closure_acceptance(f, L, e[2][1], S, p.store)
+                        if dnf is not None:
+                            key = repr(setalg.canon(S)) if S[0] in setalg.SETOPS or S[0] == "get" else repr(S)
+                            loops.setdefault(key, (S, []))[1].extend(dnf)
+                            continue
+                lst.append(natom(king_as_set(prep(e)), v))
             straight.append(lst)
         elif p.end == "loopback":
             idx = None
@@ -126,8 +222,10 @@ def acceptance(f, L, name, noinline=None):
             for e, v in conds[idx + 1:]:
                 if sym.contains(e, lambda x: x[0] == "hv"):
                     continue
-                lst.append(natom(e, v))
+                lst.append(natom(king_as_set(prep(e)), v))
             loops.setdefault(key, (S, []))[1].append(lst)
+    straight = [merge_empties(c) for c in straight]
+    loops = {k: (S, [merge_empties(c) for c in dnf]) for k, (S, dnf) in loops.items()}
     return b, straight, loops
 
 
@@ -141,6 +239,8 @@ def dedupe(dnf):
 
 def compare(ctx, key, what, code_dnf, spec_dnf, where):
     code_dnf = dedupe(code_dnf)
+    spec_dnf = [merge_empties([(("isempty", setalg.canon(king_as_set(movegen_bool(a[1]) if (isinstance(a[1], tuple) and a[1] and a[1][0] == "bool") else a[1]))), pol)
+                               if (isinstance(a, tuple) and a and a[0] == "isempty") else (a, pol) for a, pol in c]) for c in spec_dnf]
     try:
         ok, wit = setalg.guards_equivalent(code_dnf, spec_dnf)
     except ValueError as e:
@@ -186,6 +286,17 @@ def check_validators(ctx, f, L):
         for a, pol in c:
             if a in kings_apart:
                 ka = a
+    # after merging, the adjacency requirement is part of the single emptiness atom: test it by implication
+    adj = AND(("kingmoves", ("king", SELF, WHITE)), colors(BLACK), pieces("King"))
+    adj2 = AND(("kingmoves", ("king", SELF, BLACK)), colors(WHITE), pieces("King"))
+    related = False
+    for c in straight:
+        for a, pol in c:
+            if isinstance(a, tuple) and a and a[0] == "isempty" and pol is True:
+                x = movegen_bool(a[1]) if (isinstance(a[1], tuple) and a[1] and a[1][0] == "bool") else a[1]
+                if setalg.subset(adj, x) or setalg.subset(adj2, x):
+                    related = True
+    ka = ka or (kings_apart[0] if related else None)
     ctx.check(ka is not None, "board:kings-not-adjacent",
               "board validation never relates the two kings' squares (adjacent kings would be accepted)", where,
               sample={"atom": "king_moves(king(W)) ∩ black king = ∅"})
